@@ -198,8 +198,8 @@ def run(ctx):
 def reflect_before_assignment(ctx, fa):
     """The in-place swaps must precede the reads that assign bins."""
     R = 'C05.records.order'
-    swaps = [e for e in events(fa, 'store_sub') if any(T.show(c).startswith("'reflect' == ") or "'reflect'" in T.show(c)
-                                                        for c, p in e.guards if p)]
+    swaps = [e for e in events(fa, 'store_sub') if any(c[0] == 'cmp' and c[1] == '==' and C('reflect') in (c[2], c[3])
+                                                        for c, p in e.cguards if p)]
     assigns = [e for e in events(fa, 'store_sub') if e.key in (C('bin1_id'), C('bin2_id'))
                and not any(p and T.show(c).startswith('not len(') for c, p in e.guards)]
     if not swaps or not assigns:
